@@ -120,6 +120,9 @@ def directed(rng):
         # after a slot becomes free; its siblings and later calls are unaffected (C06, C07)
         add('cancel-waiter-%d' % v, {'conc': 1}, [S(call(1)), D, S(call(2)), D, dict(a='cancel', id='2'), D, hret('m1.1', OUTS_ERR[v]), D, S(call(2)), D, hret('m3.1'), D])
         add('cancel-waiter-batch-%d' % v, {'conc': 1 + v % 2}, [S(call(1), call(2), call(3)), D, dict(a='cancel', id='3'), D, hret('m1.1'), D, hret('m1.2'), D])
+        # ... and its id stays reserved until the reply of its batch is out: a reuse meanwhile is a duplicate, one afterwards is not
+        add('cancel-waiter-reuse-%d' % v, {'conc': 1}, [S(call(1)), D, S(call(2), call(3)) if v != 1 else S(call(3), call(2)), D, dict(a='cancel', id='3'), D, S(call(3)), D,
+                                                        hret('m1.1', OUTS_ERR[v] if v == 2 else 'ok'), D, hret('m2.%d' % (1 if v != 1 else 2)), D, S(call(3)), D, hret('m4.1'), D])
         add('cancel-waiter-gate-%d' % v, {'conc': 1}, [S(call(1)), D, S(call(2)), dict(a='gate', site='srv.read.lock'), dict(a='gate', site='srv.next.lock', soft=True),
                                                        dict(a='gate', site='srv.barrier.wait'), dict(a='cancel', id='2'), D, hret('m1.1'), D])
         # ... also when a slot becomes free between the cancellation and the moment the waiter looks at the semaphore
@@ -233,6 +236,8 @@ def directed(rng):
         add('invalid-mix-%d' % v, {'push': bool(v % 2)}, [S(call(1), inv(2, False, v), inv(0, True, v), inv(0, False, v), note('nf')), D, hret('m1.1'), D,
                                                           S(inv(0, False, v)), S(inv(3, False, v + 1)), D])
         add('info-%d' % v, {'conc': 1}, [S(call(1)), D, S(call(2, 'info')), D, hret('m1.1'), D])
+        # the built-in method is a request like any other: it waits for the notifications before it (alone, in an array, twice)
+        add('note-then-info-%d' % v, {'conc': 2 + v}, [S(note()), D, [S(call(1, 'info')), S(call(1, 'info'), call(2, 'info')), S(call(1, 'info'), call(2))][v], D, hret('m1.1'), D] + ([hret('m2.2'), D] if v == 2 else []))
     return out
 
 FAMILY = {
